@@ -34,6 +34,23 @@ def expected_record(rec):
     return (name, seq[2:], qual[2:])        # the run uses -u 2: the processed form is known exactly
 
 
+def leading_records(data):
+    """The records a reader can legitimately hand out before it meets the damage: the leading 4-line groups of the
+    damaged file that are well-formed by themselves (a dropped line can, by coincidence, leave a record whose
+    'quality' line is the next header with the right length: that record is then what the file says)."""
+    lines = data.decode("latin-1").split("\n")
+    if lines and lines[-1] == "":
+        lines.pop()
+    out = []
+    for j in range(0, len(lines) - 3, 4):
+        h, sq, pl, ql = lines[j: j + 4]
+        if h[:1] == "@" and pl[:1] == "+" and len(sq) == len(ql):
+            out.append((h[1:], sq, ql))
+        else:
+            break
+    return out
+
+
 def match_output(data, recs):
     """index of the input record each output record is the processed form of (-1: none)."""
     try:
@@ -152,12 +169,15 @@ def execute(ctx, desc, recs, recs2, d1, d2, container_ok, gz, cores, bs, seed, w
         e.update(exit=-9, message=False, out1=[], out2=[])
     else:
         crashed = res.exception is not None
+        # what counts as "a correctly processed record of the input": the records of the file as it is (damaged)
+        exp1 = recs if gz else (leading_records(d1) or recs)
+        exp2 = (leading_records(d2) or recs2) if paired else recs2
         # an uncaught exception ends the real program with a traceback on stderr and exit
         # status 1: a visible failure (counted separately in the evidence)
         e.update(exit=(res.exit if not crashed else 1), message=bool(res.errors) or crashed,
                  out1=(prefix_of_big(res.files.get("o1.fastq", b"") or b"") if "big" in desc else
-                       match_output(res.files.get("o1.fastq", b"") or b"", recs)),
-                 out2=match_output(res.files.get("o2.fastq", b"") or b"", recs2) if paired else [])
+                       match_output(res.files.get("o1.fastq", b"") or b"", exp1)),
+                 out2=match_output(res.files.get("o2.fastq", b"") or b"", exp2) if paired else [])
         if crashed:
             e["crash"] = repr(res.exception)
     e["policy"] = f"seed={seed},weights={w}"
